@@ -126,6 +126,16 @@ def generate(rng, tier):
         calls = [("write_nick", nk), ("query_nick",)]
         for a2 in alt: calls += [("write_nick", a2), ("query_nick",), ("query", "QT")]
         cases.append({"board": _board(rng), "calls": calls, "family": "nickname/rename-known-board"})
+    # overlapping values: a 4-byte value at slot s, then a write that covers some of its slots (another 4-byte value at s +- 1..3, or a single
+    # byte inside it), then the first value again at s (or a read of s): what the board holds is what was written last, slot by slot
+    for _ in range(40 if tier == "quick" else 1500):
+        s0 = rng.randint(3, 25); v = rng.choice(INTS + [rng.randint(-2**31, 2**31 - 1)]); w = rng.choice(INTS + [rng.randint(-2**31, 2**31 - 1)])
+        d = rng.choice([1, 2, 3, -1, -2, -3])
+        over = rng.choice([[("var_write32", w, s0 + d)], [("var_write32", w, s0 + d)], [("var_write", rng.randint(0, 255), s0 + rng.randint(0, 3))],
+                           [("var_write32", w, s0 + d), ("var_write32", v, s0 + d)]])
+        tail = rng.choice([[("var_write32", v, s0), ("var_read32", s0)], [("var_read32", s0)], [("var_write32", v, s0), ("var_read32", s0), ("var_read32", s0 + d)]])
+        calls = [("var_write32", v, s0), ("var_read32", s0)] + over + tail + [("var_read", s0 + k) for k in range(4)]
+        cases.append({"board": _board(rng), "calls": calls, "family": "int32/overlapping-writes"})
     n = 150 if tier == "quick" else 9000
     for _ in range(n):
         calls = []
